@@ -34,7 +34,7 @@
 From Coq Require Import String Ascii ZArith List Bool Lia Permutation.
 From SP Require Import Base.Sat Text.Tok Text.TokProofs Text.Dimacs Text.SolverIO.
 From SP Require Import Text.DimacsProofs Text.SolverIOProofs Text.TextTheorems.
-From SP Require Import Text.Chars Text.CharsProofs Text.TextChars Text.TextCharsProofs Text.TextCharsTheorems.
+From SP Require Import Text.Chars Text.CharsProofs Text.TextChars Text.TextCharsProofs Text.TextCharsUpdate Text.TextCharsTheorems.
 Import ListNotations.
 Open Scope Z_scope.
 
@@ -274,6 +274,41 @@ Theorem C27_solver_output_roundtrip_chars : forall bs support,
   (forall s, forallb (lit_true s) (lits_of bs) = true <-> asg_matches s 1 bs).
 Proof. exact solver_output_roundtrip_chars. Qed.
 Print Assumptions C27_solver_output_roundtrip_chars.
+
+(** [sample_non_uniform.update_file] on the characters of ANY text [s]
+    ([text.strip().splitlines()], the header rebuilt from its first four
+    words with [int(segments[3]) + 1], the other lines kept verbatim, the
+    negated solution appended, no trailing newline): whenever the token-level
+    step succeeds on the tokens of [s], the character-level step succeeds and
+    writes a text whose tokens are the token-level result.  (The converse
+    fails only where the real [int()] is more liberal than the token level: a
+    clause count written "007".) *)
+Theorem C27_update_file_chars : forall s sol f',
+  update_file (lex_file s) sol = Some f' ->
+  exists t, update_file_text s sol = Some t /\ lex_file t = f'.
+Proof. exact update_file_chars. Qed.
+Print Assumptions C27_update_file_chars.
+
+(** [text.strip()] on the characters is the removal of the blank lines at both
+    ends of the token file. *)
+Theorem C27_strip_chars : forall s,
+  (strip s = EmptyString -> strip_file (lex_file s) = []) /\
+  (strip s <> EmptyString -> lex_file (strip s) = strip_file (lex_file s)).
+Proof. exact lex_strip. Qed.
+Print Assumptions C27_strip_chars.
+
+(** [C27_update_file_blocks] about the text. *)
+Theorem C27_update_file_blocks_chars : forall s nv m rest sol,
+  has_header (lex_file s) nv m rest -> sol <> [] -> nonzero sol ->
+  exists t,
+    update_file_text s sol = Some t /\
+    has_header (lex_file t) nv (m + 1) (rest ++ [clause_line (blocking_clause sol)]) /\
+    (forall n cs, parse_cms_text s = Some (n, cs) ->
+                  parse_cms_text t = Some (n, cs ++ [blocking_clause sol])) /\
+    (forall cs ss n, parse_unigen_text s = Some (cs, ss, n) ->
+                     parse_unigen_text t = Some (cs ++ [blocking_clause sol], ss, n)).
+Proof. exact update_file_blocks_chars. Qed.
+Print Assumptions C27_update_file_blocks_chars.
 
 (** The hypotheses are satisfiable by non-trivial objects. *)
 Example C27_instance_parse_print :
